@@ -1,4 +1,5 @@
 """C19 allocation failure: ownership on every exit, checked allocations, reported failures."""
+import re
 from ksirules.flow import path_lines, status_var
 from ksirules.model import AnalysisBroken
 from ksirules.ownership import absorbed_param_release, borrowed_into_owning_field, uninitialised_at_destructor, analyse, dangling_fields, is_release, unchecked_allocations
@@ -75,6 +76,8 @@ def borrow_obligations(prog, chk, rule, units=None):
 
 def run(prog, chk):
     builder_close_table(prog, chk)
+    parallel_lists_table(prog, chk)
+    level_update_table(prog, chk)
     chk.explanation = (
         "(R4) for every function of the 40 units and every pointer local that receives an object from a producer (derived from the callee's "
         "own body: its out-parameter only ever carries a fresh allocation, a new reference or another producer's result), an allocator or "
@@ -316,20 +319,25 @@ def builder_close_table(prog, chk):
     what it was before the call, otherwise a repeated close finds a half-built TLV, skips the construction and hands out (or rejects) a
     truncated signature.  The function is evaluated for (TLV already there or not) x (which step fails): after a failing call
     builder->sig->baseTlv is what it was before, and a TLV created by this call has been released."""
+    import itertools
     from ksirules.interp import TOP, Interp, Ptr, succeed_model
     from ksirules.model import lvalue_key, strip
     chk.rule("C19.rollback", "signature builder close: a failing call leaves no half-built TLV behind (decision table over failure points)", floor=12)
     fn = prog.fn("KSI_SignatureBuilder_close", "signature_builder.c")
     bp, lp, sp = [p["n"] for p in fn.params]
     K = prog.const
-    steps = ["KSI_VerificationContext_init", "KSI_AggregationHashChainList_sort", "checkSignatureInternals", "KSI_TLV_new", "KSI_TlvTemplate_construct", "addRootLevel",
-             "KSI_Signature_clone", "KSI_SignatureVerifier_verify", "verdict"]
-    for had_tlv in (0, 1):
+    steps = ["KSI_VerificationContext_init", "KSI_AggregationHashChainList_sort", "checkSignatureInternals", "KSI_TLV_new", "KSI_TlvTemplate_construct",
+             "addRootLevel:signature", "KSI_Signature_clone", "addRootLevel:clone", "KSI_SignatureVerifier_verify", "verdict"]
+    for had_tlv, nov in itertools.product((0, 1), (0, 1)):
         for fail in [None] + steps:
             if had_tlv and fail in ("KSI_TLV_new", "KSI_TlvTemplate_construct"):
                 continue
+            if nov and fail in ("KSI_Signature_clone", "addRootLevel:clone", "KSI_SignatureVerifier_verify", "verdict"):
+                continue
             freed = []
             made = []
+            levelled = []        # objects the requested level was added to, in order
+            reached = []
 
             def mk(name):
                 def f(I, p, node, args, made=made):
@@ -339,34 +347,279 @@ def builder_close_table(prog, chk):
                         I.write(p, I.canon(p, lvalue_key(a["e"], I.fn)), Ptr("NEWTLV"))
                     if name == "KSI_Signature_clone" and fail != name:
                         I.write(p, lvalue_key(strip(node["a"][1])["e"], I.fn), Ptr("CLONE"))
+                        levelled.append("(clone made)")
                     if name == "KSI_SignatureVerifier_verify" and fail != name:
                         I.write(p, lvalue_key(strip(node["a"][2])["e"], I.fn), Ptr("RESULT"))
+                        levelled.append("(verified)")
+                    if fail == name:
+                        reached.append(name)
                     return 0x200 if fail == name else 0
                 return f
-            ov = {n: mk(n) for n in steps if n != "verdict"}
+
+            def add_level(I, p, node, args):
+                who = "signature" if args[0] == Ptr("SIG") else ("clone" if args[0] == Ptr("CLONE") else None)
+                if who is None:
+                    return TOP
+                if fail == "addRootLevel:" + who:
+                    reached.append(fail)
+                    return 0x200        # refused without a trace (judged by the table of updateLevelCorrection below)
+                levelled.append(who)
+                return 0
+            ov = {n: mk(n) for n in steps if n != "verdict" and not n.startswith("addRootLevel")}
+            ov["addRootLevel"] = add_level
             ov["KSI_TLV_free"] = lambda I, p, n, a: (freed.append(a[0]), TOP)[1]
             ov["KSI_Signature_free"] = lambda I, p, n, a: TOP
             ov["KSI_VerificationContext_clean"] = lambda I, p, n, a: TOP
             ov["KSI_PolicyVerificationResult_free"] = lambda I, p, n, a: TOP
-            inputs = {bp: Ptr("B"), lp: 3, sp: Ptr("OUT"), "B->ctx": Ptr("ctx"), "B->sig": Ptr("SIG"), "B->noVerify": 0, "SIG->aggregationChainList": Ptr("CL"),
+            inputs = {bp: Ptr("B"), lp: 3, sp: Ptr("OUT"), "B->ctx": Ptr("ctx"), "B->sig": Ptr("SIG"), "B->noVerify": nov, "SIG->aggregationChainList": Ptr("CL"),
                       "SIG->baseTlv": Ptr("OLDTLV") if had_tlv else 0, "RESULT->finalResult.resultCode": K("KSI_VER_RES_FAIL") if fail == "verdict" else K("KSI_VER_RES_OK")}
             I = Interp(fn, inputs=inputs, call_model=succeed_model(prog, ov), on_unknown="stop", prog=prog)
             paths = I.run()
             chk.paths += len(paths)
-            inst = "close[TLV %s,%s]" % ("already built" if had_tlv else "not built yet", " nothing fails" if fail is None else " %s fails" % fail)
+            inst = "close[TLV %s,%s,%s]" % ("already built" if had_tlv else "not built yet", "verification off" if nov else "verifying",
+                                            " nothing fails" if fail is None else " %s fails" % fail)
             if len(paths) != 1 or paths[0].undetermined:
                 raise AnalysisBroken("KSI_SignatureBuilder_close: evaluation not determined for %s: %s" % (inst, [q.undetermined[:1] for q in paths]))
             q = paths[0]
+            if fail is not None and fail != "verdict" and not reached:
+                if q.ret == 0 and fail == "addRootLevel:clone":
+                    continue        # this version adds the level to the signature itself before cloning it: no such step
+                raise AnalysisBroken("KSI_SignatureBuilder_close: the step %s of the table is never reached (%s)" % (fail, inst))
             tlv_now = I.read(q, "SIG->baseTlv")
             before = Ptr("OLDTLV") if had_tlv else 0
             # whether this call created a TLV is observed (the order of the steps is the source's business)
             created = bool(made)
             if fail is None:
                 out = [t[2] for t in q.stores("*" + sp)]
-                ok = q.ret == 0 and out[-1:] == [Ptr("SIG")] and I.read(q, "B->sig") == 0 and not freed
-                what = "expected KSI_OK, the signature handed out and the builder emptied; source: status %s, handed out %s, builder signature %s" % (q.ret, out, I.read(q, "B->sig"))
+                # what is verified carries the level: the clone got it, or it was cloned from a signature that had it
+                seq = [x for x in levelled if x != "(verified)"]
+                upto = levelled[:levelled.index("(verified)")] if "(verified)" in levelled else []
+                seen_level = "clone" in upto or ("signature" in upto and upto.index("signature") < upto.index("(clone made)")) if "(clone made)" in upto else False
+                ok = q.ret == 0 and out[-1:] == [Ptr("SIG")] and I.read(q, "B->sig") == 0 and not freed and levelled.count("signature") == 1 and \
+                    levelled.count("clone") <= 1 and (nov or seen_level)
+                what = "expected KSI_OK, the signature handed out with the level added once%s and the builder emptied; source: status %s, handed out %s, builder signature %s, sequence %s" % (
+                    "" if nov else ", verified with the level", q.ret, out, I.read(q, "B->sig"), levelled)
             else:
-                ok = q.ret not in (0, TOP) and tlv_now == before and ((Ptr("NEWTLV") in freed) == created) and Ptr("OLDTLV") not in freed
-                what = "expected an error and the builder's TLV as before the call (%s)%s; source: status %s, TLV now %s, released %s" % (
-                    before, ", the TLV created by this call released" if created else "", hex(q.ret) if isinstance(q.ret, int) else q.ret, tlv_now, freed)
-            chk.ob("C19.rollback", inst, ok, what, loc=fn.loc(), fn=fn, nontrivial=created)
+                ok = q.ret not in (0, TOP) and tlv_now == before and ((Ptr("NEWTLV") in freed) == created) and Ptr("OLDTLV") not in freed and "signature" not in levelled
+                what = "expected an error, the builder's TLV as before the call (%s)%s and the requested level NOT yet added to the builder's signature (a repeated close adds it again); source: status %s, TLV now %s, released %s, level added to %s" % (
+                    before, ", the TLV created by this call released" if created else "", hex(q.ret) if isinstance(q.ret, int) else q.ret, tlv_now, freed, levelled)
+            chk.ob("C19.rollback", inst, ok, what, loc=fn.loc(), fn=fn, nontrivial=created or fail is not None)
+
+
+def parallel_lists_table(prog, chk):
+    """Two lists of the context are used as one table: a position found in ctx->cleanupFnList is used to index ctx->globalObjList
+    (registerGlobalObject).  Whoever appends to one appends to the other, and a failure in between leaves both as they were - otherwise
+    every later lookup returns another entry's object (or fails for ever).  (1) the pairing is discovered, not assumed: some function
+    passes the position written by a List_find on one list to a List_elementAt on another; (2) every function that appends to either
+    list is evaluated for all outcomes of its steps with abstract list lengths."""
+    import itertools
+    from ksirules.interp import TOP, Interp, Ptr, succeed_model
+    from ksirules.model import lvalue_key, strip, walk
+    chk.rule("C19.pairs", "lists indexed by one position stay the same length on every exit of every function that grows them; a refused "
+                          "registration releases the object it made (decision tables)", floor=12)
+    # ---- discovery
+    pairs = set()
+    for fn in prog.all_functions():
+        finds, ats = [], []
+        for b, i, n in fn.calls():
+            nm = n.get("fn") or ""
+            if nm.endswith("List_find") and len(n["a"]) >= 4:
+                out = strip(n["a"][3])
+                if out.get("k") == "un" and out["op"] == "&":
+                    finds.append((lvalue_key(n["a"][0], fn), lvalue_key(out["e"], fn)))
+            if nm.endswith("List_elementAt") and len(n["a"]) >= 2:
+                ats.append((lvalue_key(n["a"][0], fn), lvalue_key(n["a"][1], fn)))
+        for la, pa in finds:
+            for lb, pb in ats:
+                if la and lb and pa and pa == pb and la != lb and la.split("->")[0] == lb.split("->")[0]:
+                    pairs.add((la.split("->", 1)[1], lb.split("->", 1)[1]))
+    if not pairs:
+        raise AnalysisBroken("C19.pairs: no pair of lists indexed by one position found (registerGlobalObject changed?)")
+    for fa, fb in sorted(pairs):
+        growers = []
+        for fn in sorted(prog.all_functions(), key=lambda f: (f.unit, f.line)):
+            tgt = set()
+            for b, i, n in fn.calls():
+                nm = n.get("fn") or ""
+                if re.search(r"List_(append|insertAt)$", nm):
+                    k = lvalue_key(n["a"][0], fn) or ""
+                    if k.endswith("->" + fa) or k.endswith("->" + fb):
+                        tgt.add(k)
+            if tgt:
+                growers.append(fn)
+        if not growers:
+            raise AnalysisBroken("C19.pairs: nothing appends to %s / %s" % (fa, fb))
+        for fn in growers:
+            cp = fn.params[0]["n"]
+            for found, mk, a_ok, b_ok in itertools.product((0, 1), (1, 0), (1, 0), (1, 0)):
+                if found and not (mk and a_ok and b_ok):
+                    continue
+                lens = {"A": 3, "B": 3}
+                made, freed = [], []
+
+                def which(v):
+                    return {"LA": "A", "LB": "B"}.get(getattr(v, "what", None))
+
+                def append(I, p, node, args):
+                    w = which(args[0])
+                    if w is None:
+                        return TOP
+                    if (a_ok if w == "A" else b_ok):
+                        lens[w] += 1
+                        return 0
+                    return 0x300
+
+                def remove(I, p, node, args):
+                    w = which(args[0])
+                    if w is None or not isinstance(args[1], int):
+                        return TOP
+                    if 0 <= args[1] < lens[w]:
+                        lens[w] -= 1
+                        return 0
+                    return 0x10b
+
+                def find(I, p, node, args):
+                    I.write(p, lvalue_key(strip(node["a"][2])["e"], I.fn), found)
+                    I.write(p, lvalue_key(strip(node["a"][3])["e"], I.fn), 1)
+                    return 0
+
+                def at(I, p, node, args):
+                    w = which(args[0])
+                    if w is None or not isinstance(args[1], int):
+                        return TOP
+                    if 0 <= args[1] < lens[w]:
+                        I.write(p, lvalue_key(strip(node["a"][2])["e"], I.fn), Ptr("STORED"))
+                        return 0
+                    return 0x10b
+
+                def length(I, p, node, args):
+                    w = which(args[0])
+                    return lens[w] if w else TOP
+                sm = succeed_model(prog, {"KSI_List_append": append, "KSI_List_remove": remove, "KSI_List_find": find, "KSI_List_elementAt": at,
+                                          "KSI_List_length": length})
+
+                def model(I, p, node, name, args, callee_val):
+                    if name is None:
+                        # the caller's constructor / initialiser / destructor, through its function pointer parameter
+                        cv = getattr(callee_val, "what", None)
+                        # a callee behind a pointer counts as modifying what it is handed: the context keeps its two lists
+                        I.write(p, "ctx->" + fa, Ptr("LA"))
+                        I.write(p, "ctx->" + fb, Ptr("LB"))
+                        if cv == "NEWFN":
+                            if not mk:
+                                return 0x300
+                            made.append(1)
+                            out = strip(node["a"][-1]) if node["a"] else {}
+                            if out.get("k") == "un" and out["op"] == "&":
+                                I.write(p, lvalue_key(out["e"], I.fn), Ptr("OBJ"))
+                            return 0
+                        if cv == "FREEFN":
+                            freed.append(args[0] if args else None)
+                            return TOP
+                        return TOP
+                    return sm(I, p, node, name, args, callee_val)
+                inputs = {cp: Ptr("ctx"), "ctx->" + fa: Ptr("LA"), "ctx->" + fb: Ptr("LB")}
+                for q in fn.params[1:]:
+                    t = q.get("t") or ""
+                    if "(*)" in t or "(*" in t:
+                        inputs[q["n"]] = Ptr("FREEFN") if ("void (*" in t or t.startswith("void")) else Ptr("NEWFN")
+                    else:
+                        inputs[q["n"]] = Ptr("OUT")
+                I = Interp(fn, inputs=inputs, call_model=model, on_unknown="stop", prog=prog)
+                paths = I.run()
+                chk.paths += len(paths)
+                inst = "%s[%s,%s,append to %s %s,append to %s %s]" % (fn.name, "registered before" if found else "new", "constructor ok" if mk else "constructor fails",
+                                                                       fa, "ok" if a_ok else "fails", fb, "ok" if b_ok else "fails")
+                if len(paths) != 1 or paths[0].undetermined or paths[0].ret is TOP:
+                    raise AnalysisBroken("%s: evaluation not determined for %s: %s" % (fn.name, inst, [x.undetermined[:1] for x in paths]))
+                q = paths[0]
+                all_ok = found or (mk and a_ok and b_ok)
+                grew = 0 if found else 1
+                if all_ok:
+                    ok = q.ret == 0 and lens == {"A": 3 + grew, "B": 3 + grew} and not freed
+                else:
+                    ok = q.ret != 0 and lens == {"A": 3, "B": 3} and (len(freed) == len(made))
+                chk.ob("C19.pairs", inst, ok, "expected %s; source: status %s, lengths %d / %d (3 / 3 before), objects made %d, released %d"
+                       % ("KSI_OK, both lists one longer" if all_ok and not found else ("KSI_OK, lists unchanged" if all_ok else "an error, both lists as before, what was made released"),
+                          hex(q.ret) if isinstance(q.ret, int) else q.ret, lens["A"], lens["B"], len(made), len(freed)), loc=fn.loc(), fn=fn,
+                       nontrivial=not all_ok)
+
+
+def level_update_table(prog, chk):
+    """updateLevelCorrection writes the new level into the first link and then re-encodes the chain into the signature's TLV; every
+    step after the first write can fail.  Evaluated with each of them failing: after an error return the link carries the level it
+    had (the last value given to KSI_HashChainLink_setLevelCorrection is the old one, or the setter was never reached) and the TLV
+    list was not edited; after KSI_OK the link carries the new level and the 0x801 element was replaced once."""
+    from ksirules.interp import TOP, Interp, Ptr, list_overrides, succeed_model
+    from ksirules.model import lvalue_key, strip
+    chk.rule("C19.levelupdate", "level correction update is all-or-nothing: a failing step leaves the link's level and the TLV as they were "
+                                "(decision table over failure points)", floor=8)
+    fn = prog.fn("updateLevelCorrection", "signature_builder.c")
+    sp, lp, cp = [p["n"] for p in fn.params]
+    steps = [None, "KSI_Integer_new", "KSI_HashChainLink_setLevelCorrection", "KSI_TLV_new", "KSI_TlvTemplate_construct", "KSI_TLV_getNestedList",
+             "KSI_AggregationHashChain_new", "KSI_TlvTemplate_extract", "KSI_TLV_replaceNestedTlv"]
+    for fail in steps:
+        sets, replaced, reached = [], [], []
+        lists = {"CHAINS": [Ptr("CHAIN0")], "LINKS": [Ptr("LINK0")], "TLVS": [Ptr("T0")]}
+        length, element_at = list_overrides(lists)
+
+        def st(name, out=None, val=None):
+            def f(I, p, node, args):
+                if fail == name:
+                    reached.append(name)
+                    return 0x200
+                if out is not None:
+                    a = strip(node["a"][out])
+                    if a.get("k") == "un":
+                        I.write(p, lvalue_key(a["e"], I.fn), val)
+                return 0
+            return f
+
+        def setlvl(I, p, node, args):
+            if fail == "KSI_HashChainLink_setLevelCorrection":
+                reached.append(fail)
+                return 0x200
+            sets.append(args[1])
+            return 0
+
+        def replace(I, p, node, args):
+            if fail == "KSI_TLV_replaceNestedTlv":
+                reached.append(fail)
+                return 0x200
+            replaced.append((args[1], args[2]))
+            return 0
+        ov = {"KSI_AggregationHashChainList_elementAt": element_at, "KSI_HashChainLinkList_elementAt": element_at, "KSI_TLVList_elementAt": element_at,
+              "KSI_TLVList_length": length, "KSI_AggregationHashChain_getChain": st("-", 1, Ptr("LINKS")),
+              "KSI_HashChainLink_getLevelCorrection": st("-", 1, Ptr("OLDLVL")), "KSI_Integer_getUInt64": lambda I, p, n, a: 2 if a[0] == Ptr("OLDLVL") else TOP,
+              "KSI_Integer_new": st("KSI_Integer_new", 2, Ptr("NEWLVL")), "KSI_HashChainLink_setLevelCorrection": setlvl,
+              "KSI_TLV_new": st("KSI_TLV_new", 4, Ptr("NEWTLV")), "KSI_TlvTemplate_construct": st("KSI_TlvTemplate_construct"),
+              "KSI_TLV_getNestedList": st("KSI_TLV_getNestedList", 1, Ptr("TLVS")), "KSI_TLV_getTag": lambda I, p, n, a: 0x801,
+              "KSI_AggregationHashChain_new": st("KSI_AggregationHashChain_new", 1, Ptr("FROMTLV")), "KSI_TlvTemplate_extract": st("KSI_TlvTemplate_extract"),
+              "KSI_AggregationHashChain_compare": lambda I, p, n, a: 0, "KSI_TLV_replaceNestedTlv": replace,
+              "KSI_Integer_free": lambda I, p, n, a: TOP, "KSI_TLV_free": lambda I, p, n, a: TOP, "KSI_AggregationHashChain_free": lambda I, p, n, a: TOP}
+        sm = succeed_model(prog, ov)
+
+        def model(I, p, node, name, args, callee_val):
+            if name is None:        # calcLevelCorrection(old, root, &new)
+                a = strip(node["a"][2])
+                I.write(p, lvalue_key(a["e"], I.fn), 5)
+                return 0
+            return sm(I, p, node, name, args, callee_val)
+        inputs = {sp: Ptr("SIG"), lp: 3, cp: Ptr("CALC"), "SIG->ctx": Ptr("ctx"), "SIG->aggregationChainList": Ptr("CHAINS"), "SIG->baseTlv": Ptr("BASE")}
+        I = Interp(fn, inputs=inputs, call_model=model, on_unknown="stop", prog=prog, loop_bound=4)
+        paths = I.run()
+        chk.paths += len(paths)
+        inst = "updateLevelCorrection[%s]" % ("nothing fails" if fail is None else fail + " fails")
+        if len(paths) != 1 or paths[0].undetermined or paths[0].ret is TOP:
+            raise AnalysisBroken("updateLevelCorrection: evaluation not determined for %s: %s" % (inst, [q.undetermined[:1] for q in paths]))
+        if fail is not None and not reached:
+            raise AnalysisBroken("updateLevelCorrection: the step %s of the table is never reached" % fail)
+        q = paths[0]
+        if fail is None:
+            ok = q.ret == 0 and sets[-1:] == [Ptr("NEWLVL")] and replaced == [(Ptr("T0"), Ptr("NEWTLV"))]
+            what = "expected KSI_OK, the link given the new level, the 0x801 element replaced once; source: status %s, levels set %s, replaced %s" % (q.ret, sets, replaced)
+        else:
+            ok = q.ret != 0 and (not sets or sets[-1] == Ptr("OLDLVL")) and not replaced
+            what = "expected an error with the link's level as it was and the TLV untouched; source: status %s, levels given to the link %s, replaced %s" % (
+                hex(q.ret) if isinstance(q.ret, int) else q.ret, sets, replaced)
+        chk.ob("C19.levelupdate", inst, ok, what, loc=fn.loc(), fn=fn, nontrivial=fail is not None)
